@@ -352,6 +352,27 @@ macro_rules! spec_runner {
                         }
                     }
                 }
+                // a value edited through the typed API (an element pushed onto a sequence member, a
+                // new repeated item): store -> load must give back the edited value
+                {
+                    let mut xe = x1.clone();
+                    if ApiEdit::api_edit(&mut xe, rng) {
+                        rec.bump("api_edited_values");
+                        let mut fresh = IfData::new();
+                        match guarded(|| xe.store_to_ifdata(&mut fresh)) {
+                            Err((sig, detail)) => rec.violation(&format!("{sig} in store_to_ifdata of an edited value ({})", $label), &detail, witness_text("C19", &text, $label)),
+                            Ok(()) => match guarded(|| <$ty>::load_from_ifdata(&fresh)) {
+                                Ok(Some(x2)) if x2 == xe => {}
+                                Ok(other) => rec.violation(
+                                    &format!("value edited through the typed API is not given back by store_to_ifdata / load_from_ifdata ({})", $label),
+                                    &format!("stored: {} | loaded: {}", clip(&format!("{xe:?}"), 500), clip(&format!("{other:?}"), 500)),
+                                    witness_text("C19", &text, $label),
+                                ),
+                                Err((sig, detail)) => rec.violation(&format!("{sig} loading an edited value ({})", $label), &detail, witness_text("C19", &text, $label)),
+                            },
+                        }
+                    }
+                }
                 // load -> store into the model -> write
                 x1.store_to_ifdata(&mut stored.project.module[0].if_data[i]);
             }
@@ -543,6 +564,30 @@ macro_rules! spec_runner {
     };
 }
 
+/// edits of a typed value through its public fields (per specification; default: none)
+trait ApiEdit {
+    fn api_edit(&mut self, _rng: &mut Rng) -> bool {
+        false
+    }
+}
+impl ApiEdit for specs::s1::SpecOne {
+    fn api_edit(&mut self, rng: &mut Rng) -> bool {
+        // block "SEQUENCE" (char[256] name)*: one more element of the sequence (a new block if there was none)
+        let seq = self.sequence.get_or_insert_with(specs::s1::Sequence::new);
+        seq.item.push(format!("pushed_{}", rng.below(1000)));
+        if rng.coin() {
+            seq.item.push("second".to_string());
+        }
+        true
+    }
+}
+impl ApiEdit for specs::s2::SpecTwo {}
+impl ApiEdit for specs::s3::SpecThree {}
+impl ApiEdit for specs::s4::SpecFour {}
+impl ApiEdit for specs::s5::SpecFive {}
+impl ApiEdit for specs::s6::SpecSix {}
+impl ApiEdit for specs::s7::SpecSeven {}
+
 spec_runner!(run_s1, specs::s1::SpecOne, specs::s1::SPECONE_TEXT, "SpecOne");
 spec_runner!(run_s2, specs::s2::SpecTwo, specs::s2::SPECTWO_TEXT, "SpecTwo");
 spec_runner!(run_s3, specs::s3::SpecThree, specs::s3::SPECTHREE_TEXT, "SpecThree");
@@ -573,6 +618,7 @@ pub fn run(args: &Args, rec: &mut Recorder) {
     rec.floor("instances.conforming", 100);
     rec.floor("store_unchanged.text_compared", 10);
     rec.floor("mismatch.store_back_compared", 20);
+    rec.floor("api_edited_values", 20);
     rec.floor("update_a2ml.cases", 5);
     rec.floor("builtin_first.cases", 5);
     rec.floor("definition.in_file(X_TEXT in A2ML block)", 10);
